@@ -35,7 +35,7 @@ class Verdict:
 
 
 def _mk_solver(base: List[Any], mbqi: bool) -> z3.Solver:
-    s = z3.Solver()
+    s = z3.SimpleSolver()
     s.set("auto_config", False)
     s.set("smt.mbqi", mbqi)
     s.set("timeout", TIMEOUT_MS)
@@ -144,6 +144,18 @@ def discharge(ob: Obligation, base: List[Any], use_cvc5: bool = True, second_opi
             s.add(a)
         s.add(z3.Not(goal))
         r = s.check()
+        if r == z3.unknown and not mbqi:
+            # E-matching saturated without refuting: its current model satisfies the ground part and
+            # every quantifier instance produced so far -- a much better candidate than the relaxed one
+            try:
+                m0 = s.model()
+                if len(m0) > 0:
+                    v.status, v.backend, v.model = CANDIDATE, "z3-ematch-candidate", m0
+                    v.reason = s.reason_unknown()
+                    v.solver_output = "unknown from z3-ematch (%s); candidate model of the saturated state" % v.reason
+                    break
+            except z3.Z3Exception:
+                pass
         if r == z3.unsat:
             v.status, v.backend = PROVED, backend
             break
